@@ -1,8 +1,8 @@
 #!/bin/sh
 # usage: tools_seed_run.sh <prop-id> [tier]   applies /verif/seeded/<id>/patch.diff to /repo, runs the check, reverts
-id=$1; tier=${2:-quick}
+sid=$1; tier=${2:-quick}; id=${sid%%-*}   # seeded/C03-2 is a second seeded change for C03
 cd /repo && git diff --quiet || { echo "/repo is dirty"; exit 9; }
-git apply /verif/seeded/$id/patch.diff || { echo "patch does not apply"; exit 9; }
-cd /verif && timeout 3000 ./check $id $tier > /tmp/seedrun-$id.log 2>&1; rc=$?
+git apply /verif/seeded/$sid/patch.diff || { echo "patch does not apply"; exit 9; }
+cd /verif && timeout 3000 ./check $id $tier > /tmp/seedrun-$sid.log 2>&1; rc=$?
 cd /repo && git checkout -- . 
-echo "check $id $tier on seeded tree: exit $rc"; grep -m3 -A1 "VIOLATION\|INCONCLUSIVE" /tmp/seedrun-$id.log | cut -c1-300
+echo "check $id $tier on seeded tree ($sid): exit $rc"; grep -m3 -A1 "VIOLATION\|INCONCLUSIVE" /tmp/seedrun-$sid.log | cut -c1-300
